@@ -16,7 +16,7 @@ FUNCTIONS = [DelayModel.generate_delay, DelayModel._create_random_value_from_run
              Task._calc_task_delay, Scheduler._update_current_plan]
 META = {
     'bounds': {'C15.runtime': '0..6 (enumerated by branching; the property quantifies over a bounded integer range including 0)', 'C15.draws': '3 samples per generator call, unbounded ints (uniform clamped to [low, high])',
-               'C15.prob': [0.0, 0.5, 1.0], 'C15.u': [0.0, 0.5, 0.75], 'C15.degrees': 'all four', 'C15.dists': ['normal', 'poisson', 'uniform'],
+               'C15.prob': [0.0, 0.5, 1.0], 'C15.u': [0.0, 0.5, 0.75], 'C15.degrees': 'all four', 'C15.seeds': [0, 7, 20], 'C15.dists': ['normal', 'poisson', 'uniform'],
                'C15.do_work': 'duration 0..3, injected delay 0..3'},
     'outside_bounds': ["numpy's actual distributions (replaced by the E7 contract)", 'non-integer draws (int() of a symbolic float is enumerated, not decided)',
                        'sample counts other than 3'],
@@ -103,16 +103,18 @@ def gen_tag(dist, deg, pk, r, uk, x0, x1, x2, y0, y1, y2):
     u = pick([0.0, 0.5, 0.75], uk)
     prob = pick([0.0, 0.5, 1.0], pk)
     SEEDED.clear()
-    SEEDED[20] = {'u': u, 'x': [x0, x1, x2]}
+    seed = PIN.get('seed', 20)
+    for sd in (0, 7, 20):
+        SEEDED[sd] = {'u': u, 'x': [x0, x1, x2]}
     # an unseeded generator is a different stream every time it is created
     FRESH[:] = [{'u': u, 'x': [y0, y1, y2]}, {'u': u, 'x': [y1, y2, y0]}, {'u': u, 'x': [y2, y0, y1]}, {'u': u, 'x': [y0, y2, y1]}] * 2
     dname = DIST[dist]
-    dm = DelayModel(prob, dname, DEG[deg])
+    dm = DelayModel(prob, dname, DEG[deg], seed=seed)
     try:
         out = dm.generate_delay(r, 3)
     except Exception as ex:
         return f'C15/raises/{type(ex).__name__}/{dname}' + ('/runtime0' if r == 0 else '')
-    dm2 = DelayModel(prob, dname, DEG[deg])
+    dm2 = DelayModel(prob, dname, DEG[deg], seed=seed)
     try:
         out2 = dm2.generate_delay(r, 3)
     except Exception as ex:
@@ -129,7 +131,10 @@ def gen_tag(dist, deg, pk, r, uk, x0, x1, x2, y0, y1, y2):
 
 
 def gen_ok_tag(pk, r, uk, x0, x1, x2, y0, y1, y2):
-    return gen_tag(PIN['dist'], PIN['deg'], pk, r, uk, x0, x1, x2, y0, y1, y2)
+    t = gen_tag(PIN['dist'], PIN['deg'], pk, r, uk, x0, x1, x2, y0, y1, y2)
+    if t is not None and PIN.get('only') and PIN['only'] not in t:
+        return None                 # shared with C10: that check asserts the determinism clause only
+    return t
 
 
 def gen_ok(pk: int, r: int, uk: int, x0: int, x1: int, x2: int, y0: int, y1: int, y2: int) -> bool:
@@ -206,7 +211,12 @@ def warmup():
 
 def shards(tier, prop):
     T = 150 if tier == 'quick' else 900
-    out = [{'fn': 'gen_ok', 'pin': {'dist': k, 'deg': g}, 'cond_timeout': T} for k in range(3) for g in range(4)]
+    if prop == 'C10':
+        out = [{'fn': 'gen_ok', 'pin': {'dist': k, 'deg': g, 'seed': sd, 'only': 'not-deterministic'}, 'cond_timeout': T}
+               for (k, g, sd) in ((0, 1, 20), (1, 2, 0), (2, 0, 7), (0, 2, 0), (1, 0, 20), (2, 1, 0))]
+        return out + [{'fn': 'gen_ok', 'pin': {'dist': 0, 'deg': 1}, 'cond_timeout': 30, 'twin': True}]
+    out = [{'fn': 'gen_ok', 'pin': {'dist': k, 'deg': g, 'seed': (20, 0, 7)[(k + g) % 3]}, 'cond_timeout': T} for k in range(3) for g in range(4)]
+    out += [{'fn': 'gen_ok', 'pin': {'dist': k, 'deg': 1, 'seed': 0}, 'cond_timeout': T} for k in range(3)]
     out.append({'fn': 'flag_ok', 'cond_timeout': T})
     out.append({'fn': 'gen_ok', 'pin': {'dist': 0, 'deg': 1}, 'cond_timeout': 30, 'twin': True})
     out.append({'fn': 'flag_ok', 'cond_timeout': 30, 'twin': True})
